@@ -24,7 +24,7 @@ vars == <<reach, class, shape, mode, force, fs, todo, cur, pc, outw, sout, liste
 
 \* abstract sizes: minified is smaller, equal or larger than what was read
 ReadLen(f) == 2
-ApiLen(f)  == CASE class[f] \in {"shrinks", "readonly"} -> 1
+ApiLen(f)  == CASE class[f] \in {"shrinks", "legacy", "readonly"} -> 1
                 [] class[f] \in {"equal", "empty"}      -> 2
                 [] class[f] = "grows"                   -> 3
                 [] OTHER                                -> 0
